@@ -60,6 +60,29 @@ CLAIMED.update({
     },
 })
 
+CLAIMED.update({
+    "C09": {
+        "text": "Machine-checked proof, for every key width 1..1023 and every finite map that fits, that the model of "
+                "HashMap.serialize followed by the model of parse_hashmap returns exactly the same pairs in ascending key "
+                "order, independently of insertion order; empty map = no cell; optional-dictionary wrapper; key range "
+                "check is exact. Model tied to hashmap/*.py by a differential run (all key sets for widths 1..3).",
+        "design_ref": "DESIGN.md 4.9",
+        "technique": "Coq proof by induction on key length / Patricia tree (lcp of min and max = lcp of all, forks non-empty, "
+                     "in-order leaves = sorted map); correspondence by extracted OCaml model",
+        "note": "6 theorems closed under the global context. Known finding F29 (recursion depth of very deep trees).",
+    },
+    "C10": {
+        "text": "Machine-checked proof that the label kind chosen equals the reference rule of dict.cpp for every label "
+                "length and remaining key length (no bound), that labels are written as HmLabel encodings, that the tree "
+                "built is the canonical Patricia tree, and that the parser model decodes every valid tree whatever label "
+                "kinds it uses and skips pruned subtrees. Differential run incl. non-canonical and augmented trees.",
+        "design_ref": "DESIGN.md 4.10",
+        "technique": "Coq proof (unbounded label arithmetic by lia, induction on valid trees); correspondence by extracted "
+                     "OCaml model against an independent Python encoder",
+        "note": "5 theorems closed under the global context. The augmented parser is covered by correspondence only.",
+    },
+})
+
 PENDING_REASON = "check not built yet in this round (design in DESIGN.md section 4); not claimed until it exists"
 
 
